@@ -2,6 +2,9 @@ package harness
 
 import (
 	"fmt"
+	"os"
+	"os/exec"
+	"path/filepath"
 	"sort"
 	"strings"
 
@@ -56,11 +59,15 @@ func (c18) Gen(r *simrt.Rand, idx int, tier string) *Case {
 	c := &Case{Gen: &g, Today: "2030-01-01", Files: map[string]string{}}
 	subs := []string{"format-1", "format-n", "infer-inplace", "format-1", "format-n", "infer-same", "format-rodir", "format-symlink", "infer-symlink"}
 	c.Sub = subs[idx%len(subs)]
+	if idx%37 == 36 {
+		c.Sub = "real-fsize"
+	}
 	c.Scheds = []Sched{RandSched(r)}
 	switch c.Sub {
-	case "format-1", "format-rodir":
+	case "format-1", "format-rodir", "real-fsize":
 		c.Files["/w/a.knut"] = messy(r, Gen(r, g))
 		c.Args = []string{"/w/a.knut"}
+		c.N = r.Intn(1 << 20)
 	case "format-symlink":
 		// the journal is reached through a symbolic link
 		c.Files["/w/real/a.knut"] = messy(r, Gen(r, g))
@@ -134,7 +141,68 @@ func faultKindsFor(op string) []string {
 	return nil
 }
 
+// evalRealFsize is engine X's corroboration (never the deciding step for the
+// simulated sub-checks): the shipped, uninstrumented binary formats a real file
+// under a real RLIMIT_FSIZE of k bytes (prlimit), for drawn k; the kernel stops
+// the write at byte k (Go ignores SIGXFSZ and sees EFBIG).
+func evalRealFsize(c *Case) (*Violation, bool) {
+	bin := os.Getenv("KNUT_X")
+	prl, err := exec.LookPath("prlimit")
+	if bin == "" || err != nil {
+		return nil, true
+	}
+	if _, err := os.Stat(bin); err != nil {
+		return nil, true
+	}
+	dir, err := os.MkdirTemp("/dev/shm", "knutx-")
+	if err != nil {
+		if dir, err = os.MkdirTemp("", "knutx-"); err != nil {
+			return nil, true
+		}
+	}
+	defer os.RemoveAll(dir)
+	old := c.Files["/w/a.knut"]
+	target := filepath.Join(dir, "a.knut")
+	write := func() { _ = os.WriteFile(target, []byte(old), 0o644) }
+	write()
+	if out, err := exec.Command(bin, "format", target).CombinedOutput(); err != nil {
+		_ = out
+		return nil, true
+	}
+	nb, _ := os.ReadFile(target)
+	newc := string(nb)
+	if newc == old {
+		return nil, true
+	}
+	rr := simrt.NewRand(uint64(c.N) + 3)
+	ks := []int{0, 1, len(newc) - 1, len(newc), len(newc) + 1}
+	for i := 0; i < 20; i++ {
+		ks = append(ks, rr.Intn(len(newc)+1))
+	}
+	for _, k := range ks {
+		write()
+		cmd := exec.Command(prl, fmt.Sprintf("--fsize=%d", k), bin, "format", target)
+		_ = cmd.Run()
+		got, err := os.ReadFile(target)
+		Extra["real_fsize_runs"]++
+		if err != nil {
+			return &Violation{Signature: "real:target-missing", Msg: fmt.Sprintf("shipped binary under RLIMIT_FSIZE=%d: the file is gone", k)}, false
+		}
+		if string(got) != old && string(got) != newc {
+			return &Violation{Signature: "real:torn-file", Msg: fmt.Sprintf("shipped binary under RLIMIT_FSIZE=%d: the file holds neither its old nor its new contents (%d bytes; old %d, new %d)", k, len(got), len(old), len(newc))}, false
+		}
+		ents, _ := os.ReadDir(dir)
+		if len(ents) != 1 {
+			return &Violation{Signature: "real:leftover-temp-file", Msg: fmt.Sprintf("shipped binary under RLIMIT_FSIZE=%d leaves %d files behind", k, len(ents)-1)}, false
+		}
+	}
+	return nil, false
+}
+
 func (c18) Eval(c *Case) (*Violation, bool) {
+	if c.Sub == "real-fsize" {
+		return evalRealFsize(c)
+	}
 	s := c.Scheds[0]
 	cmd := "format"
 	if strings.HasPrefix(c.Sub, "infer") {
